@@ -1,6 +1,8 @@
 import DymVerif.Driver.Common
 import DymVerif.Driver.Core
 import DymVerif.Model.LC
+import DymVerif.Model.LCTx
+import DymVerif.Model.LCAdmin
 namespace DymVerif.Driver.C09
 open DymVerif DymVerif.LC DymVerif.Driver
 open DymVerif.Driver.Core (kv kvN idx! joinWith b2s)
@@ -33,7 +35,13 @@ def wrapOf : String → Wrap
   | "wrapped" => .wrapped
   | "nested" => .nested
   | "nestedwrapped" => .nestedWrapped
+  | "group" => .storedProposal
   | _ => .top
+
+def routeOf : String → ChanRoute
+  | "nested" => .nestedAck
+  | "confirm" => .confirm
+  | _ => .ack
 
 def mkindOf : String → MKind
   | "submitNested" => .submitNested
@@ -41,6 +49,8 @@ def mkindOf : String → MKind
   | "viaUpdateNested" => .viaUpdateNested
   | "viaWrapped" => .viaWrapped
   | "viaWrappedNested" => .viaWrappedNested
+  | "submitGroup" => .submitStored
+  | "viaUpdateGroup" => .viaUpdateStored
   | _ => .submit
 
 def chainOf (d : DState) (s : String) : Nat :=
@@ -58,7 +68,7 @@ def parseOp (d : DState) (f : List String) : Option Op :=
       ⟨kvN f "h", ⟨kvN f "root", kvN f "ts", kvN f "nv"⟩, actorTok (kv f "ps"), actorTok (kv f "pd"), kvN f "rev", soleOf (kv f "vals") (kv f "pd")⟩ (kv f "ibc" = "1"))
   | "lc_misb" :: c :: _ => some (.misbehaviour (idx! c) (mkindOf (kv f "k")) (kv f "ibc" = "1"))
   | "lc_chaninit" :: c :: _ => some (.chanInit (idx! c))
-  | "lc_chanack" :: ch :: _ => some (.chanAck (nat! (ch.drop 2).toString) (kv f "ibc" = "1"))
+  | "lc_chanack" :: ch :: _ => some (.chanAck (nat! (ch.drop 2).toString) (routeOf (kv f "w")) (kv f "ibc" = "1"))
   | _ =>
     match Driver.Core.parseOp (coreD d) f with
     | none => none
@@ -125,6 +135,53 @@ def step (d : DState) (f : List String) : DState × String :=
       let d' := { d with st := s' }
       (d', render d' (resName isUpd r))
 
-def drv : Drv := { σ := DState, init := default, step := step }
+/-- the sub-op token lists of a `tx` line (separator `;;`) -/
+def splitSubs (f : List String) : List (List String) :=
+  (f.foldr (fun t acc => if t == ";;" then [] :: acc else
+    match acc with
+    | [] => [[t]]
+    | x :: xs => (t :: x) :: xs) [[]]).filter (fun l => !l.isEmpty)
+
+/-- the sub-ops that can travel in a `tx` line (harness/c09_tx.go) -/
+def txSub (d : DState) (f : List String) : Option Op :=
+  match f with
+  | "update" :: _ => parseOp d f
+  | "lc_update" :: _ => if kv f "w" = "group" then none else parseOp d f
+  | "lc_misb" :: _ => if (kv f "k").endsWith "Group" then none else parseOp d f
+  | "lc_setcanon" :: _ => parseOp d f
+  | "lc_chanack" :: _ => if kv f "ibc" = "0" && (kv f "w" = "" || kv f "w" = "top") then parseOp d f else none
+  | _ => none
+
+def parseTx (d : DState) (rest : List String) : Option (List Op) :=
+  match splitSubs rest with
+  | [] => none
+  | subs => subs.mapM (txSub d)
+
+/-- `tx …`: several messages in one transaction (`Model/LCTx.lean`) -/
+def stepTx (d : DState) (rest : List String) : DState × String :=
+  match parseTx d rest with
+  | none => (d, render d "bad-op")
+  | some ms =>
+    let (s', r) := LC.txStep d.st ms
+    let d' := { d with st := s' }
+    (d', render d' (resName true r))
+
+/-- `lc_upgrade` / `lc_recover` (`Model/LCAdmin.lean`) -/
+def stepAdmin (d : DState) (o : AOp) : DState × String :=
+  let (s', r) := LC.astep d.st o
+  let d' := { d with st := s' }
+  (d', render d' (resName false r))
+
+def stepAll (d : DState) (f : List String) : DState × String :=
+  let (d', out) := match f with
+    | "tx" :: rest => stepTx d rest
+    | "lc_recover" :: c :: _ => stepAdmin d (.recover (idx! c) (idx! (kv f "sub")))
+    | "lc_upgrade" :: c :: _ =>
+      stepAdmin d (.upgrade (idx! c) ⟨chainOf d (kv f "chain"), kvN f "h", kvN f "ts", kvN f "nv"⟩ (kv f "ibc" = "1"))
+    | _ => step d f
+  -- the side condition of `agreement_inv` (`SafeRun` / `CoveredRun`), evaluated in every state of every trace
+  if LC.coveredB d'.st then (d', out) else (d', "model-invariant-broken: a descriptor of M-LC outside every state info of M-Core | " ++ out)
+
+def drv : Drv := { σ := DState, init := default, step := stepAll }
 
 end DymVerif.Driver.C09
